@@ -1,0 +1,24 @@
+//go:build verif
+
+package internal
+
+import (
+	"github.com/markusressel/fan2go/internal/configuration"
+	"github.com/markusressel/fan2go/internal/curves"
+)
+
+// Lemma functions for /verif/govc (compiled only with -tags verif, never called). They connect the two halves
+// of "a configuration that validates can be run": what validateConfig guarantees about an entry (contracts in
+// package configuration) implies the precondition under which evaluating the instantiated curve is proved
+// crash-free (contracts in package curves). The obligation of interest is the precondition check at the call.
+
+// lemmaAcceptedFunctionCurve: entry i of an accepted configuration is a function curve, c is the curve object
+// built from it, and every configured curve id is registered (what initializeCurves does).
+func lemmaAcceptedFunctionCurve(cfg *configuration.Configuration, i int, c *curves.FunctionSpeedCurve) (int, error) {
+	return c.Evaluate()
+}
+
+// lemmaAcceptedLinearCurve: the same for a linear curve (min/max or steps form).
+func lemmaAcceptedLinearCurve(cfg *configuration.Configuration, i int, c *curves.LinearSpeedCurve) (int, error) {
+	return c.Evaluate()
+}
